@@ -48,22 +48,26 @@ func (c *channels) Connect(ctx context.Context, target peer.ID) error {
 	if _, ok := c.subs[target]; !ok {
 		c.logger.Debug("subscribing to", zap.String("topic", id))
 
-		sub, err := c.ipfs.PubSub().Subscribe(ctx, id, options.PubSub.Discover(true))
+		// the channel to a peer is shared by all the stores of the instance
+		// and lives as long as the instance: the context of the caller (a
+		// store, which may be closed while the others stay open) only bounds
+		// how long this call waits for the peer
+		sub, err := c.ipfs.PubSub().Subscribe(c.ctx, id, options.PubSub.Discover(true))
 		if err != nil {
 			c.muSubs.Unlock()
 			return fmt.Errorf("unable to subscribe to pubsub: %w", err)
 		}
 
-		ctx, cancel := context.WithCancel(ctx)
+		subCtx, cancel := context.WithCancel(c.ctx)
 
 		c.subs[target] = &channel{
-			ctx:    ctx,
+			ctx:    subCtx,
 			cancel: cancel,
 			sub:    sub,
 			id:     id,
 		}
 		go func() {
-			c.monitorTopic(ctx, sub, target)
+			c.monitorTopic(subCtx, sub, target)
 
 			// if monitor topic is done, remove target from cache
 			c.muSubs.Lock()
